@@ -110,7 +110,7 @@ def _parse(parser, sql, null, calls, fmap):
         parse_result = parser.parse_string(line, parse_all=True)
         output = scrub(parse_result)
         for o, n in _utils.null_locations:
-            o[n] = null
+            o[n] = {"null": {}} if null is SQL_NULL else null
         if not output:
             continue
         if isinstance(output, list):
